@@ -1032,6 +1032,15 @@ def gen_plan(rng, sh, defs):
     return plan
 
 
+def gen_plan_ok(rng, sh, defs):
+    """every action succeeds and writes its targets (no other writes)"""
+    plan = {}
+    for t in range(sh.ntasks):
+        if defs[t]['targets']:
+            plan[str(t)] = {'ok': True, 'writes': [[p, 10 + t] for p in defs[t]['targets']], 'res': None}
+    return plan
+
+
 def gen_case(rng, parallel=False, informational=False):
     ntasks = rng.choice([1, 1, 1, 1, 2, 2, 2, 3, 3, 4])
     nsrc = rng.choice([1, 2, 2, 3])
@@ -1041,8 +1050,11 @@ def gen_case(rng, parallel=False, informational=False):
         if rng.random() < 0.9:
             ops.append(['edit', p, rng.randrange(1, 8)])
     defs = {}
+    common_src = rng.randrange(nsrc) if (ntasks > 1 and rng.random() < 0.6) else None
     for t in range(ntasks):
         defs[t] = gen_def(rng, sh, t)
+        if common_src is not None and common_src not in defs[t]['deps'] and rng.random() < 0.85:
+            defs[t]['deps'].append(common_src)      # a source shared by the tasks: their records can diverge
         ops.append(['redefine', t, defs[t]])
     n = rng.randint(4, 14)
     kinds = [('run', 30), ('redefine', 24), ('edit', 12), ('touch', 6), ('delete', 8), ('forget', 5),
@@ -1058,8 +1070,10 @@ def gen_case(rng, parallel=False, informational=False):
         if k == 'run':
             spec = {'sel': None, 'always': rng.random() < 0.08, 'cont': rng.random() < 0.3, 'par': None,
                     'plan': gen_plan(rng, sh, defs)}
-            if ntasks > 1 and rng.random() < 0.2:
-                spec['sel'] = sorted(rng.sample(range(ntasks), rng.randint(1, ntasks)))
+            if ntasks > 1 and rng.random() < 0.4:
+                # a partial run: only some tasks are selected (mostly a single one)
+                k = 1 if rng.random() < 0.6 else rng.randint(1, ntasks)
+                spec['sel'] = sorted(rng.sample(range(ntasks), k))
             if parallel and rng.random() < 0.6:
                 spec['par'] = rng.choice(['process', 'thread'])
             ops.append(['run', spec])
@@ -1068,7 +1082,8 @@ def gen_case(rng, parallel=False, informational=False):
             defs[t] = gen_def(rng, sh, t, defs[t])
             ops.append(['redefine', t, defs[t]])
         elif k == 'edit':
-            ops.append(['edit', rng.randrange(nsrc), rng.randrange(1, 8)])
+            ops.append(['edit', common_src if (common_src is not None and rng.random() < 0.6) else rng.randrange(nsrc),
+                        rng.randrange(1, 8)])
         elif k == 'editKeep':
             ops.append(['editKeep', rng.randrange(nsrc), rng.randrange(1, 8)])
         elif k == 'touch':
@@ -1076,13 +1091,31 @@ def gen_case(rng, parallel=False, informational=False):
         elif k == 'delete':
             ops.append(['delete', rng.randrange(sh.npaths) if rng.random() < 0.6 else sh.target(rng.randrange(ntasks))])
         elif k == 'forget':
-            ops.append(['forget', [] if rng.random() < 0.3 else [rng.randrange(ntasks)]])
+            ops.append(['forget', [] if rng.random() < 0.25 else [rng.randrange(ntasks)]])
         elif k == 'ignore':
             ops.append(['ignore', [rng.randrange(ntasks)]])
         elif k == 'reset-dep':
-            ops.append(['reset-dep', [] if rng.random() < 0.5 else [rng.randrange(ntasks)]])
+            ops.append(['reset-dep', [] if rng.random() < 0.35 else [rng.randrange(ntasks)]])
         elif k == 'checker':
             ops.append(['checker', rng.choice(CHECKERS)])
+    if common_src is not None and rng.random() < 0.5:
+        # records of tasks sharing a source diverge: everything is run, the shared source changes, only some tasks
+        # are refreshed (partial run / reset-dep / forget + partial run), then everything is run again (twice)
+        some = (list(range(rng.randint(1, ntasks - 1))) if rng.random() < 0.7
+                else sorted(rng.sample(range(ntasks), rng.randint(1, ntasks - 1))))
+        ops.append(['run', {'sel': None, 'always': False, 'cont': True, 'par': None, 'plan': gen_plan_ok(rng, sh, defs)}])
+        ops.append(rng.choice([['edit', common_src, rng.randrange(1, 8)], ['touch', common_src]]))
+        how = rng.random()
+        if how < 0.5:
+            ops.append(['run', {'sel': some, 'always': False, 'cont': True, 'par': None, 'plan': gen_plan_ok(rng, sh, defs)}])
+        elif how < 0.8:
+            ops.append(['reset-dep', some])
+        else:
+            ops.append(['forget', some])
+            ops.append(['run', {'sel': some, 'always': False, 'cont': True, 'par': None, 'plan': gen_plan_ok(rng, sh, defs)}])
+        for _ in range(2):
+            ops.append(['run', {'sel': None, 'always': False, 'cont': True, 'par': rng.choice(['process', 'thread']) if parallel and rng.random() < 0.3 else None,
+                                'plan': gen_plan_ok(rng, sh, defs)}])
     return {'backend': rng.choice(BACKENDS), 'checker': rng.choice(CHECKERS), 'ntasks': ntasks,
             'npaths': sh.npaths, 'ops': ops, 'scramble': rng.choice([0, rng.randrange(1, 90000), rng.randrange(1, 90000)])}
 
@@ -1152,21 +1185,33 @@ def _words(alphabet, maxlen, keep):
     return out
 
 
-def exhaustive_cases(maxlen, macro_len=None):
+# two tasks sharing one file_dep: records diverge through partial runs (selection), reset-dep / forget of one task
+_SH_DEF = {'deps': [0], 'targets': [], 'uptodate': []}
+EXH2_PREFIX = [['edit', 0, 1], ['redefine', 0, _SH_DEF], ['redefine', 1, _SH_DEF], ['run', {'plan': {}}]]
+EXH_SHARED = {'R': [['run', {'plan': {}}]], 'L': [['run', {'plan': {}, 'sel': [0]}]], 'M': [['run', {'plan': {}, 'sel': [1]}]],
+              'E': [['edit', 0, 3]], 'T': [['touch', 0]], 'S': [['reset-dep', [0]]], 'Z': [['reset-dep', [1]]],
+              'G': [['forget', [0]]], 'F': [['run', {'plan': {'1': {'ok': False, 'writes': [], 'res': None}}, 'cont': True}]]}
+
+
+def exhaustive_cases(maxlen, macro_len=None, shared_len=None):
     """every history of length <= maxlen over the 9-op plain alphabet on one task that ends in an observing op
     (run / failing run / reset-dep) and contains a successful run or reset before it, plus every history of
-    length <= macro_len over the 9-letter macro alphabet (redefine+run fused) ending in an observing letter;
-    backend and checker rotate"""
+    length <= macro_len over the 9-letter macro alphabet (redefine+run fused) ending in an observing letter, plus
+    every history of length <= shared_len over the 9-letter alphabet on TWO tasks sharing a file_dep (full run,
+    run of one task only, edit, touch, reset-dep / forget of one task, run in which the second task fails) that
+    contains an edit/touch and ends in a run; backend and checker rotate"""
     out = []
-    words = [(w, EXH_ALPHABET) for w in _words(EXH_ALPHABET, maxlen,
-                                               lambda s: s[-1] in 'RFS' and ('R' in s[:-1] or 'S' in s[:-1]))]
-    words += [(w, EXH_MACRO) for w in _words(EXH_MACRO, macro_len or 0,
-                                             lambda s: s[-1] in 'abcrfs' and len(s) > 1)]
-    for n, (w, alpha) in enumerate(words):
-        ops = list(EXH_PREFIX)
-        for a in w:
+    words = [(w, EXH_ALPHABET, EXH_PREFIX, 1) for w in _words(EXH_ALPHABET, maxlen,
+             lambda s: s[-1] in 'RFS' and ('R' in s[:-1] or 'S' in s[:-1]))]
+    words += [(w, EXH_MACRO, EXH_PREFIX, 1) for w in _words(EXH_MACRO, macro_len or 0,
+              lambda s: s[-1] in 'abcrfs' and len(s) > 1)]
+    words += [('2:' + w, EXH_SHARED, EXH2_PREFIX, 2) for w in _words(EXH_SHARED, shared_len or 0,
+              lambda s: s[-1] in 'RLMF' and ('E' in s or 'T' in s) and len(s) > 1)]
+    for n, (w, alpha, prefix, ntasks) in enumerate(words):
+        ops = list(prefix)
+        for a in w.split(':')[-1]:
             ops += alpha[a]
-        out.append({'backend': BACKENDS[n % 3], 'checker': CHECKERS[(n // 3) % 2], 'ntasks': 1, 'npaths': 2,
+        out.append({'backend': BACKENDS[n % 3], 'checker': CHECKERS[(n // 3) % 2], 'ntasks': ntasks, 'npaths': 2,
                     'ops': json.loads(json.dumps(ops)), 'word': w, 'scramble': (n % 4) * 1237})
     return out
 
@@ -1217,7 +1262,13 @@ def process_batch(arg):
     allow_children()
     st = common.WorkerStats()
     cases = [strip(c) for _, c in batch]
-    verdicts = evaluate(cases)
+    try:
+        verdicts = evaluate(cases)
+    except Exception:  # noqa
+        # a loaded machine can make one driver / doit child invocation time out: one more attempt before this counts
+        # as a broken harness
+        st.count('harness:batch-retried')
+        verdicts = evaluate(cases)
     shrunk = 0
     for (origin, _), case, v in zip(batch, cases, verdicts):
         st.case({'history': render(case)}, nontrivial(case, v))
@@ -1287,7 +1338,8 @@ def process_batch(arg):
     return st
 
 
-def run_property(ctx, prop, n_random, exh_len, macro_len, parallel_share=0.0, n_info=0, sub_share=0.02):
+def run_property(ctx, prop, n_random, exh_len, macro_len, parallel_share=0.0, n_info=0, sub_share=0.02,
+                 shared_len=3):
     """corpus first, then the small-scope exhaustive tier, then random histories -- in rounds, until everything is
     done or the time budget of the tier is used up (what was left out is written to the evidence)"""
     items = []
@@ -1295,14 +1347,15 @@ def run_property(ctx, prop, n_random, exh_len, macro_len, parallel_share=0.0, n_
     for name, c in corpus:
         items.append(('corpus', c))
     seeds = [c for _, c in corpus]
-    ex = exhaustive_cases(exh_len, macro_len)
-    ex.sort(key=lambda c: len(c['word']))
+    ex = exhaustive_cases(exh_len, macro_len, shared_len)
+    ex.sort(key=lambda c: len(c['word'].split(':')[-1]))
     ctx.extra['exhaustive_small_scope'] = {
         'alphabet': len(EXH_ALPHABET), 'max_len': exh_len, 'macro_alphabet': len(EXH_MACRO),
-        'macro_max_len': macro_len, 'histories': len(ex),
+        'macro_max_len': macro_len, 'shared_dep_two_tasks_alphabet': len(EXH_SHARED),
+        'shared_dep_max_len': shared_len, 'histories': len(ex),
         'filter': 'ends in run / failing run / reset-dep; plain words contain an earlier run or reset'}
-    short = [c for c in ex if len(c['word']) <= 3]
-    rest = [c for c in ex if len(c['word']) > 3]
+    short = [c for c in ex if len(c['word'].split(':')[-1]) <= 3]
+    rest = [c for c in ex if len(c['word'].split(':')[-1]) > 3]
     for c in short:
         items.append(('exhaustive', c))
     rnd = []
